@@ -283,12 +283,14 @@ def pProxy (s : String) : Option (Option ProxyNet) :=
   match s.splitOn ":" with
   | ["-"] => some none
   | [k, up, tun] => do
-    let k ← (match k with | "http" => some ProxyKind.http | "socks5" => some ProxyKind.socks5 | _ => none)
+    let k ← (match k with | "http" => some ProxyKind.http | "https" => some ProxyKind.http | "socks5" => some ProxyKind.socks5 | _ => none)
     pure (some ⟨k, ← pBool up, ← pBool tun⟩)
   | _ => none
 
 /-- `c12proxy <proxy> <the 17 arguments of c12route>` → `<route> via=<0|1|->` (`Dispatch.routeP`,
-`viaProxy`; `-` when the proxy is down: nothing to observe); `<proxy>` = `-` | `http:<up>:<tunnel>` | `socks5:<up>:<tunnel>`. -/
+`viaProxy`; `-` when the proxy is down: nothing to observe); `<proxy>` = `-` | `http:<up>:<tunnel>` | `socks5:<up>:<tunnel>` | `https:<up>:<tunnel>` (the HTTP proxy
+reached over TLS, `SetProxyURL("https://…")`: same kind — CONNECT for https; its certificate is acceptable
+under exactly the settings the origin's is, so `routeP` is unchanged). -/
 def laneProxy : List String → String
   | px :: rest =>
     match pProxy px, parseRoute rest with
